@@ -44,6 +44,7 @@ var impls = map[string]func(string) string{
 	"mode.rdev":       implMode,
 	"failover.accept": implFailoverAccept,
 	"swap.accept":     implSwapAccept,
+	"pool.accept":     implPoolAccept,
 }
 
 type replayFile struct {
